@@ -18,6 +18,7 @@ def run(chk):
     corpus = [(f["input"], f.get("expected")) for f in chk.findings if f.get("input")]
     progs = [gen_prog.Gen(rng).program() for _ in range(n)]
     progs += range_programs(rng, 60 if thorough else 20)
+    progs += hierarchy_programs(rng, 6 if thorough else 2)
     progs += [FixedProg(f["input"], f["expected_prints"]) for f in chk.findings if f.get("input") and f.get("expected_prints")]
     res = sweep.transpile(chk, [p.text for p in progs])
     jobs, meta = [], []
@@ -86,6 +87,35 @@ class RangeProg:
             out.append(str(i))
             i += st
         return out + ["done"], "ok"
+
+
+def hierarchy_programs(rng, n):
+    """class hierarchies in which a constructor up the chain has an effect the child relies on: an argument-less middle
+    class passing arguments on, an explicit constructor in the parent, two parents, three levels"""
+    out = []
+    for k in range(n):
+        lit, num, v = rng.choice(["dog", "x y", "Q"]), rng.randint(1, 9), rng.randint(1, 9)
+        out.append(FixedProg(
+            "class G%d(def s%d: Str)\n    def gs(fin self) -> Str => self.s%d + \"!\"\n"
+            "class P%d: G%d(\"%s\")\n    def h%d: Int := %d\n"
+            "class C%d(def c%d: Int): P%d\n    def mc(fin self) -> Int => self.c%d + self.h%d\n"
+            "def o := C%d(%d)\nprint(o.s%d)\nprint(o.gs())\nprint(o.mc())\n" % (k, k, k, k, k, lit, k, num, k, k, k, k, k, k, v, k),
+            [lit, lit + "!", str(v + num)]))
+        out.append(FixedProg(
+            "class M%d\n    def ticks: Int := 0\n    def __init__(self) =>\n        self.ticks := %d\n"
+            "class F%d(def stride: Int): M%d\n    def jump(self) -> Int =>\n        self.ticks := self.ticks + self.stride\n        self.ticks\n"
+            "def f := F%d(%d)\nprint(f.jump())\nprint(f.jump())\n" % (k, num, k, k, k, v), [str(num + v), str(num + 2 * v)]))
+        out.append(FixedProg(
+            "class A%d(def a: Int)\n    def ga(fin self) -> Int => self.a\n"
+            "class B%d(def b: Int): A%d(b)\n    def gb(fin self) -> Int => self.b + self.a\n"
+            "class D%d(def d: Int, def e: Int): B%d(e)\n    def gd(fin self) -> Int => self.d + self.b + self.a\n"
+            "def o := D%d(%d, %d)\nprint(o.ga())\nprint(o.gb())\nprint(o.gd())\n" % (k, k, k, k, k, k, v, num), [str(num), str(2 * num), str(v + 2 * num)]))
+        out.append(FixedProg(
+            "class X%d\n    def x: Int := 0\n    def __init__(self) =>\n        self.x := %d\n"
+            "class Y%d\n    def y: Int := 0\n    def __init__(self) =>\n        self.y := %d\n"
+            "class Z%d(def z: Int): X%d, Y%d\n    def total(fin self) -> Int => self.x + self.y + self.z\n"
+            "print(Z%d(1).total())\n" % (k, num, k, v, k, k, k, k), [str(num + v + 1)]))
+    return out
 
 
 def range_programs(rng, n):
